@@ -60,6 +60,8 @@ def ops_for(alpha: List[Item]) -> List[Tuple]:
         ops.append(("append", i))
         ops.append(("insert0", i))
         ops.append(("insertmid", i))
+        if i % 3 == 0:
+            ops.append(("insertneg1", i))
         ops.append(("remove", i))
     ops += [("extend", 0, 1), ("extendgen", 2, 0), ("extenditer", 1, 1), ("pop",), ("pop0",), ("popmid",), ("clear",),
             ("copy",), ("copycopy",), ("deepcopy",), ("pickle",), ("ctor",)]
@@ -88,6 +90,11 @@ def apply_op(nil: Any, model: List[Item], op: Tuple, alpha: List[Item], cls: Any
     elif kind == "insertend":
         nil.insert(len(model), alpha[op[1]])
         model.insert(len(model), alpha[op[1]])
+    elif kind in ("insertneg1", "insertneg2", "insertfar"):
+        # negative indexes count from the end (as for list.insert), out-of-range ones clamp
+        idx = {"insertneg1": -1, "insertneg2": -2, "insertfar": -100}[kind]
+        nil.insert(idx, alpha[op[1]])
+        model.insert(idx, alpha[op[1]])
     elif kind in ("extend", "extendgen", "extenditer", "extendtuple"):
         # list.extend takes any iterable: a list, a tuple, and one-shot iterables
         xs = [alpha[i] for i in op[1:]]
@@ -304,14 +311,16 @@ def random_histories(task: Tuple, col: common.Collector) -> None:
         for i in range(4):
             src = r.choice(alpha)
             alpha.append(Item(src.short_name, src.payload, src.tag + "'"))
-        kinds = ["append"] * 6 + ["insert0", "insertmid", "insertend", "remove", "remove", "pop",
+        kinds = ["append"] * 6 + ["insert0", "insertmid", "insertend", "insertneg1", "insertneg2",
+                                  "insertfar", "remove", "remove", "pop",
                                   "pop0", "popmid", "extend", "extendgen", "extenditer",
                                   "extendtuple", "copy", "copycopy", "ctor",
                                   "deepcopy", "pickle"] + (["clear"] if r.random() < 0.3 else [])
         hist: List[Tuple] = []
         for _ in range(length):
             k = r.choice(kinds)
-            if k in ("append", "insert0", "insertmid", "insertend", "remove"):
+            if k in ("append", "insert0", "insertmid", "insertend", "insertneg1", "insertneg2",
+                     "insertfar", "remove"):
                 hist.append((k, r.randrange(len(alpha))))
             elif k.startswith("extend"):
                 hist.append((k, r.randrange(len(alpha)), r.randrange(len(alpha))))
